@@ -89,7 +89,7 @@ Proof. vm_compute. reflexivity. Qed.
 
 (* ---- and it holds on a fragment ---- *)
 
-(* On schemas of the class [clean] - no references, formats, nullable, patternProperties, dependencies, oneOf,
+(* On schemas of the class [clean] - no references, formats other than next to a numeric type, nullable, patternProperties, dependencies, oneOf,
    defaults under properties, empty tuples, nor a schema next to additional*: false; type, enum, numeric
    and string keywords, items (one or positional) with additionalItems, properties / required / additionalProperties /
    min- and maxProperties, allOf, anyOf, not, at every depth - and JSON data of the class [jd] - objects with distinct
